@@ -378,6 +378,12 @@ func genC13Cases(env *Env, r *Rand, n int, full bool) []Case {
 		"\tINT %s", "\tJMP %s", "\tCALL %s", "\tJE %s", "\tJMP %s:0", "\tJMP 8:%s", "X EQU %s\n\tDD X", "[BITS %s]", "\tPUSH %s", "\tSHL AX,%s", "\tIN AL,%s", "\tOUT %s,AL", "\tRET %s", "\tIMUL CX,%s", "\tRESB %s-$", "\tDD %s*%s", "\tDD 1/%s", "\tDD %s%%7", "[FORMAT %s]", "\tTIMES %s DB 0"}
 	for _, pos := range numPos {
 		for _, v := range bigNumbers {
+			if pos == "\tRESB %s-$" && v == "0x80000000" {
+				// a legitimate reservation of 2 GiB - 1 bytes since repair 9badf8a (the statement stands at address 1): gosk builds
+				// the image, in 13 s of CPU time alone and in 170 s when six such jobs run side by side (page faults and copies
+				// under memory contention).  CPU time cannot tell that from a hang, so the input is not used (DESIGN.md 11.16).
+				continue
+			}
 			add("big-number", wrap(strings.ReplaceAll(pos, "%s", v)))
 		}
 	}
